@@ -683,8 +683,9 @@ type NewOptions struct {
 	// An advertisement may carry several route information, RDNSS and DNSSL options, each with its
 	// own lifetime (RFC 4191 2.3, RFC 8106 5.1/5.2): every well-formed one, in packet order.
 	// The single fields above keep their previous meaning (last route / last lifetime over all servers / last list).
-	Routes    []RouteInformation
-	RDNSSList []RecursiveDNSServer
+	Routes         []RouteInformation
+	RDNSSList      []RecursiveDNSServer
+	DNSSearchLists []DNSSearchList
 }
 
 func newParseOptions(b []byte) (NewOptions, error) {
@@ -751,6 +752,8 @@ func newParseOptions(b []byte) (NewOptions, error) {
 		case optDNSSL:
 			if err := options.DNSSearchList.unmarshal(b[i : i+l]); err != nil {
 				Logger.Msg("ignore invalid DNSSearchList option").Error(err).ByteArray("options", b).Write()
+			} else {
+				options.DNSSearchLists = append(options.DNSSearchLists, options.DNSSearchList)
 			}
 		default:
 			fmt.Println("icmp6 : invalid option - ignoring ", t)
